@@ -102,3 +102,11 @@ def _(self, member: Obj("Type"), data: Map('str', Val), encoded_members: ByteArr
     ensures(implies(member.name not in data, encoded_members == old(encoded_members)))
     ensures(implies(member.name in data and is_dflt(ident(member), data[member.name])
                     and not isinstance(member, AnyDefinedBy), encoded_members == old(encoded_members)))
+
+
+@contract("get_tag_no_encoding", props=["C03"])
+def _(member: Obj("Type")) -> ByteArray:
+    # sort key of SET components: the identifier octets with the primitive/constructed bit cleared, i.e. (class, number)
+    requires(member.tag is not None)
+    ensures(len(result) == len(member.tag) and result[0] == member.tag[0] - (member.tag[0] // 32) % 2 * 32
+            and result[1:] == member.tag[1:])
